@@ -479,9 +479,6 @@ Definition alts_valid := proj1 (proj2 group_valid).
 Definition item_valid := proj1 group_valid.
 Definition sel_valid := proj2 (proj2 (proj2 (proj2 (proj2 group_valid)))).
 
-Lemma letter_le : forall b, letter b -> b <= 122.
-Proof. intros b Lb. unfold letter, is_ascii_alpha, is_ascii_upper, is_ascii_lower in Lb. lia. Qed.
-
 Lemma kwcase_first : forall kw txt k kw', kwcaseb kw txt = true -> kw = k :: kw' -> is_ascii_alpha k = true ->
   exists b t, txt = b :: t /\ letter b /\ ascii_lower b = ascii_lower k.
 Proof.
